@@ -579,6 +579,9 @@ Apply(o, e) ==
     [] e.ev = "Ack"        -> Touch(ApAck(o, e))
     [] e.ev = "SaveCall"   -> ApSaveCall(o, e)
     [] e.ev = "SaveBegin"  -> ApSaveBegin(o, e)
+    \* the state handed to metadata.Save lacks assigned vBuckets of the session: a backend that stores the state as a whole
+    \* (the file backend) loses their checkpoints
+    [] e.ev = "SaveArgsPartial" -> IF o.closing THEN o ELSE Viol(o, "C02", "a save does not carry the checkpoint of every assigned vBucket: a whole-state backend (file) would lose the others")
     [] e.ev = "StoreWrite" -> ApStoreWrite(o, e)
     [] e.ev = "SaveEnd"    -> ApSaveEnd(o, e)
     [] e.ev = "SaveRet"    -> ApSaveRet(o, e)
